@@ -28,7 +28,19 @@ func c03Gen(r *rand.Rand, tier string) any {
 	sc := &histScenario{Spec: genProject(r, o), Proc: genProc(r)}
 	sc.Proc.Strategy = []int{simrt.StratUniform, simrt.StratSticky, simrt.StratFIFO, simrt.StratRoundRobin}[r.IntN(4)]
 	shadow := sc.clone().Spec
-	sc.Mode = []string{"crash", "crash", "crash", "fail", "fail", "ioerr", "compose"}[r.IntN(7)]
+	sc.Mode = []string{"crash", "crash", "crash", "fail", "fail", "ioerr", "compose", "crash-revert"}[r.IntN(8)]
+	if sc.Mode == "crash-revert" {
+		// full build, one item edit, interrupted rebuild
+		label := pickLabel(r, shadow)
+		items := shadow.semanticItems()
+		if len(items) > 0 {
+			sc.Ops = append(sc.Ops, opSpec{Op: "build", Label: label})
+			sc.Ops = append(sc.Ops, opSpec{Op: "edit-item", Item: items[r.IntN(len(items))], N: 1 + r.IntN(3)})
+			sc.Ops = append(sc.Ops, opSpec{Op: "build", Label: label})
+			return sc
+		}
+		sc.Mode = "crash"
+	}
 	if sc.Mode == "fail" && r.IntN(3) != 0 {
 		// a full build, then edits, then the same label again with failing bodies: the failed
 		// targets have dependents whose records date from the first build
@@ -184,11 +196,36 @@ func (h *histRun) recoverAndCheck(tag string, opIdx int, label string, want map[
 			return simcheck.V("unfinished-not-rerun", "%s; the next build did not re-execute %s, which had not completed successfully", what, l)
 		}
 	}
+	if want == nil {
+		return nil
+	}
 	if k := sameOutputs(want, h.outputs(label)); k != "" {
 		return simcheck.V("recovery-diverges", "%s; after the next build the generated file %s differs from an uninterrupted build", what, k)
 	}
 	_ = tag
 	return nil
+}
+
+// revertLastEdit undoes the last edit-item operation before op `last` (spec, disk, model).
+func (h *histRun) revertLastEdit(sc *histScenario, last int) bool {
+	for i := last - 1; i >= 0; i-- {
+		if sc.Ops[i].Op == "edit-item" {
+			inv := sc.Ops[i]
+			n := inv.N
+			if n == 0 {
+				n = 1
+			}
+			inv.N = -n
+			if err := h.edit(last, &inv); err != nil {
+				return false
+			}
+			return true
+		}
+		if isProcessOp(sc.Ops[i].Op) {
+			return false
+		}
+	}
+	return false
 }
 
 // unfinished lists labels whose body started but did not end successfully during op i.
@@ -505,6 +542,32 @@ func c03Exec(scAny any, c *simcheck.Ctx) *simcheck.Violation {
 				if v := h.recoverAndCheck("compose", last+2, final.Label, want, unfinished, what); v != nil {
 					return narrow(v, idx)
 				}
+				continue
+			}
+			if sc.Mode == "crash-revert" {
+				// "followed by arbitrary further edits": undo the last edit, so the tree is back
+				// to what the interrupted target last completed against
+				if !h.revertLastEdit(sc, last) {
+					continue
+				}
+				what += "; the last edit was then undone"
+				if v := h.recoverAndCheck("crash-revert", last+1, final.Label, nil, unfinished, what); v != nil {
+					return narrow(v, idx)
+				}
+				if v := h.compareFromScratch(final.Label, fmt.Sprintf("revert%d", idx)); v != nil {
+					v.Msg = what + "; " + v.Msg
+					return narrow(v, idx)
+				}
+				// the spec is restored for the next crash point
+				h.p = sc.clone().Spec
+				for i := 0; i < last; i++ {
+					if !isProcessOp(sc.Ops[i].Op) {
+						h.p.applySpecEdit(&sc.Ops[i])
+					}
+				}
+				h.prev = h.p.files()
+				h.w.bodies = h.p.bodySpecs(h.w.root)
+				h.refreshModel("restored")
 				continue
 			}
 			if v := h.recoverAndCheck("crash", last+1, final.Label, want, unfinished, what); v != nil {
